@@ -61,13 +61,10 @@ Definition scc_spec (l : list N) : fval :=
   else fq (inject_Z (n * t1 - s * s) / inject_Z den)%Q.
 
 (* ---- Monte-Carlo pi: successive complete groups of six bytes = two 24-bit big-endian coordinates *)
-Fixpoint groups6 (fuel : nat) (l : list N) : list (list N) :=
-  match fuel with
-  | O => []
-  | S f => match l with
-           | a :: b :: c :: d :: e :: g :: r => [a; b; c; d; e; g] :: groups6 f r
-           | _ => []
-           end
+Fixpoint groups6 (l : list N) {struct l} : list (list N) :=
+  match l with
+  | a :: b :: c :: d :: e :: g :: r => [a; b; c; d; e; g] :: groups6 r
+  | _ => []
   end.
 
 Definition coord (a b c : N) : N := a * 65536 + b * 256 + c.
@@ -80,7 +77,7 @@ Definition in_circle (g : list N) : bool :=
   end.
 
 Definition monte_spec (l : list N) : option fval :=
-  let gs := groups6 (length l) l in
+  let gs := groups6 l in
   match gs with
   | [] => None
   | _ => Some (FMonte (nlen (filter in_circle gs)) (nlen gs))
